@@ -402,7 +402,7 @@ if names_clause("C18") is not None:
 
 from ..envcheck import env_clauses  # noqa: E402
 
-CLAUSES.extend(env_clauses("C18", ("tlv",), n_quick=2, n_thorough=30))
+CLAUSES.extend(env_clauses("C18", ("tlv",), n_quick=2, n_thorough=30, more_of="ReservedCfdpMessage.parsers", more=14))
 
 PROPERTY = Property(
     id="C18",
